@@ -324,8 +324,19 @@ def gambit_variants(rng, cid):
             g = ("p", 1, 1, "2", [("l", ("p", 1, 2, None, [("x", T(1, 1, -1)), ("y", T(2, 0, 0))], 0, None)), ("r", T(3, 2, -2))], 0, None)
             cat = "duplicate"
         elif kind == "dupname":
-            g = ("c", 1, [("h", F(1, 2), ("p", 1, 1, "same", [("l", T(1, 1, -1)), ("r", T(2, 0, 0))], 0, None)),
-                          ("t", F(1, 2), ("p", 1, 2, "same", [("l", T(3, 2, -2)), ("r", T(2, 0, 0))], 0, None))], 0, None)
+            pl = rng.choice([1, 2])
+            if rng.random() < 0.5:
+                g = ("c", 1, [("h", F(1, 2), ("p", pl, 1, "same", [("l", T(1, 1, -1)), ("r", T(2, 0, 0))], 0, None)),
+                              ("t", F(1, 2), ("p", pl, 2, "same", [("l", T(3, 2, -2)), ("r", T(2, 0, 0))], 0, None))], 0, None)
+            else:
+                # three infosets of one player; the two that share the name are not neighbours in number order
+                n1 = rng.choice([1, 3, 10])
+                n2 = n1 + rng.choice([1, 5, 10])
+                n3 = n2 + rng.choice([1, 7, 10])
+                mid_name = rng.choice([None, "other"])
+                g = ("c", 1, [("h", F(1, 3), ("p", pl, n1, "same", [("l", T(1, 1, -1)), ("r", T(2, 0, 0))], 0, None)),
+                              ("m", F(1, 3), ("p", pl, n2, mid_name, [("l", T(4, 5, -5)), ("r", T(2, 0, 0))], 0, None)),
+                              ("t", F(1, 3), ("p", pl, n3, "same", [("l", T(3, 2, -2)), ("r", T(2, 0, 0))], 0, None))], 0, None)
             cat = "duplicate"
         elif kind == "sharedname":
             # both players use the name "same": separate namespaces, must be accepted
